@@ -802,6 +802,95 @@ func runC06(w *World, r *Report) {
 		}
 	}
 
+	r.Rule("C06.checkpointer-always-built", "every compiled runner gets a checkpointer: the store of runner.checkPointer in graph.compile is conditional on nothing but the options object being there — a graph level without store or interrupt lists of its own still has to RELAY an interrupt (a node of it returns InterruptAndRerun, a graph nested in it interrupts), which converts the checkpoint through that object", 1)
+	{
+		fCP := w.Field("compose", "runner", "checkPointer")
+		n := 0
+		for _, fw := range fieldWrites(gcompileC06(w)) {
+			if !sameField(fw.field, fCP) {
+				continue
+			}
+			n++
+			// no successful way through compile with an options object avoids the store
+			gc := gcompileC06(w)
+			nilSide := map[[2]*ssa.BasicBlock]bool{}
+			instrs(gc, func(in ssa.Instruction) {
+				iff, ok := in.(*ssa.If)
+				if !ok {
+					return
+				}
+				op, x, y, ok := asCmp(iff.Cond)
+				if !ok || !isNilConst(y) {
+					return
+				}
+				if p, isP := x.(*ssa.Parameter); !isP || p.Name() != "opt" {
+					return
+				}
+				blk := iff.Block()
+				if op == token.NEQ {
+					nilSide[[2]*ssa.BasicBlock{blk, blk.Succs[1]}] = true
+				} else {
+					nilSide[[2]*ssa.BasicBlock{blk, blk.Succs[0]}] = true
+				}
+			})
+			st := fw.in
+			skip, wit := pathQuery{fn: gc, goal: func(in ssa.Instruction) bool {
+				ret, ok := in.(*ssa.Return)
+				return ok && len(ret.Results) == 2 && isNilConst(returnedValue(ret, 1))
+			}, avoid: func(in ssa.Instruction) bool { return in == st }, avoidEdge: func(a, b *ssa.BasicBlock) bool { return nilSide[[2]*ssa.BasicBlock{a, b}] }}.exists()
+			r.Check(!skip, "C06.checkpointer-always-built", "graph.compile installs the runner's checkpointer on every successful path", fw.in.Pos(), "with an options object, no success return avoids the store", "compile can succeed without building the checkpointer ("+wit+"): a level compiled with just a name and a step limit (what react.Agent.ExportGraph produces) that has to relay an interrupt calls convertCheckPoint on a nil checkpointer — the top-level run returns a node panic instead of the interrupt error, no info is extractable and no checkpoint is written")
+		}
+		if n == 0 {
+			undecidedf("C06.checkpointer-always-built: graph.compile does not store runner.checkPointer")
+		}
+	}
+
+	r.Rule("C06.checkpoint-id-from-caller-only", "the checkpoint id a run loads from and saves under is the one the caller's options carry (the first result of getCheckPointInfo) and nothing else: no default derived from the graph — all id-less runs of a graph would share one slot, and an interrupted id-less run would be 'resumed' by the next unrelated one", 3)
+	{
+		run := w.Fn("compose", "runner.run")
+		gci := w.Fn("compose", "getCheckPointInfo")
+		var idv ssa.Value
+		for _, c := range callsTo(run, gci) {
+			if v, ok := c.(ssa.Value); ok {
+				idv = extractOf(v.(*ssa.Call), 0)
+			}
+		}
+		if idv == nil {
+			undecidedf("C06.checkpoint-id-from-caller-only: run does not call getCheckPointInfo")
+		}
+		n := 0
+		instrs(run, func(in ssa.Instruction) {
+			c, ok := in.(ssa.CallInstruction)
+			if !ok {
+				return
+			}
+			sc := staticCallee(c)
+			if sc == nil || !w.inRepo(sc) {
+				return
+			}
+			for i, p := range sc.Params {
+				if i >= len(c.Common().Args) {
+					break
+				}
+				pt, isPtr := p.Type().(*types.Pointer)
+				if !isPtr || !types.Identical(pt.Elem(), types.Typ[types.String]) || !strings.Contains(strings.ToLower(p.Name()), "checkpointid") {
+					continue
+				}
+				n++
+				r.Check(c.Common().Args[i] == idv, "C06.checkpoint-id-from-caller-only", fmt.Sprintf("runner.run hands %s the caller's checkpoint id (#%d)", sc.Name(), n), in.Pos(), "the value returned by getCheckPointInfo itself", "the id handed on is not the caller's as it came (a default was merged in): runs without WithCheckPointID are no longer independent — an interrupted one silently writes a checkpoint, and the next id-less run starts from it, executing the interrupt-before node at once with the first run's input")
+			}
+			// the load: *checkPointID dereferenced for getCheckPointFromStore
+			if sc.Name() == "getCheckPointFromStore" && len(c.Common().Args) > 1 {
+				n++
+				ld, ok := c.Common().Args[1].(*ssa.UnOp)
+				r.Check(ok && ld.X == idv, "C06.checkpoint-id-from-caller-only", "runner.run loads the checkpoint under the caller's id", in.Pos(), "*checkPointID of getCheckPointInfo", "the checkpoint is loaded under an id that is not the caller's as it came")
+			}
+		})
+		if n < 3 {
+			undecidedf("C06.checkpoint-id-from-caller-only: only %d uses of the checkpoint id found in run", n)
+		}
+	}
+
 	r.Rule("C06.sentinel-match", "InterruptAndRerun is matched with errors.Is (never ==) wherever the framework classifies a task error", 2)
 	sentinelMatchChecks(w, r, "C06.sentinel-match")
 	_ = strings.Join
@@ -866,4 +955,35 @@ func sentinelMatchChecks(w *World, r *Report, rule string) {
 			r.Fail(rule, w.fname(f)+" classifies InterruptAndRerun", f.Pos(), "no errors.Is(err, InterruptAndRerun) in this classifier")
 		}
 	}
+}
+
+func gcompileC06(w *World) *ssa.Function { return w.Fn("compose", "graph.compile") }
+
+// errorOnlyArm: the guard is the surviving side of an early error return (`if bad { return nil, err }`): the other arm of
+// its If leaves the function with an error at once, so the guard is a validation, not a condition under which the
+// guarded code is skipped on a successful compile.
+func errorOnlyArm(g guard) bool {
+	if g.at == nil {
+		return false
+	}
+	b := g.at.Block()
+	other := b.Succs[1]
+	if !g.pol {
+		other = b.Succs[0]
+	}
+	// the other arm: a block that ends in a Return with a non-nil error without branching further
+	for hop := 0; hop < 3 && other != nil; hop++ {
+		if len(other.Instrs) == 0 {
+			return false
+		}
+		switch last := other.Instrs[len(other.Instrs)-1].(type) {
+		case *ssa.Return:
+			return len(last.Results) > 0 && !isNilConst(last.Results[len(last.Results)-1])
+		case *ssa.Jump:
+			other = other.Succs[0]
+		default:
+			return false
+		}
+	}
+	return false
 }
